@@ -32,6 +32,7 @@ type Probe struct {
 	FailSeam string
 	FailK    int  // 1-based
 	Short    bool // drive_write only: write half of the buffer, then fail
+	Persist  bool // every interaction of the seam from the K-th on fails (a dead medium)
 	Fired    bool
 	Writes   []int // length of every drive write since Reset
 	Yield    func(seam string)
@@ -48,14 +49,22 @@ func (p *Probe) Reset() {
 func (p *Probe) Arm(seam string, k int, short bool) {
 	p.mu.Lock()
 	p.Counts = map[string]int{}
-	p.FailSeam, p.FailK, p.Fired, p.Short = seam, k, false, short
+	p.FailSeam, p.FailK, p.Fired, p.Short, p.Persist = seam, k, false, short, false
 	p.Writes = nil
+	p.mu.Unlock()
+}
+
+// ArmPersistent fails every interaction of the seam from the k-th on.
+func (p *Probe) ArmPersistent(seam string, k int) {
+	p.Arm(seam, k, false)
+	p.mu.Lock()
+	p.Persist = true
 	p.mu.Unlock()
 }
 
 func (p *Probe) Disarm() {
 	p.mu.Lock()
-	p.FailSeam, p.FailK = "", 0
+	p.FailSeam, p.FailK, p.Persist = "", 0, false
 	p.mu.Unlock()
 }
 
@@ -84,6 +93,9 @@ func (p *Probe) hit(seam string) error {
 	p.Counts[seam]++
 	if p.FailSeam == seam && p.Counts[seam] == p.FailK && !p.Fired {
 		p.Fired = true
+		return ErrInjected
+	}
+	if p.FailSeam == seam && p.Persist && p.Fired && p.Counts[seam] > p.FailK {
 		return ErrInjected
 	}
 	return nil
@@ -121,10 +133,20 @@ func (r *probeReader) Read(b []byte) (int, error) {
 	return r.r.Read(b)
 }
 func (r *probeReader) Seek(o int64, wh int) (int64, error) {
+	if r.p.persistent() {
+		// a dead medium: every Read fails, positioning still works
+		return r.r.Seek(o, wh)
+	}
 	if err := r.p.hit(SeamDriveRead); err != nil {
 		return 0, err
 	}
 	return r.r.Seek(o, wh)
+}
+
+func (p *Probe) persistent() bool {
+	p.mu.Lock()
+	defer p.mu.Unlock()
+	return p.Persist && p.Fired
 }
 func (r *probeReader) Fd() uintptr { return r.r.Fd() }
 
